@@ -142,6 +142,14 @@ def gen(shard, rng, tier):
             yield from both(lib_case("lib", {"op": "mnemonic.random", "length": L, "fail_at": 1}, {"cls": "mnemonic.random"}))
         for L in (2**31, 2**32, 2**63):
             yield from both(lib_case("lib", {"op": "mnemonic.random", "length": L}, {"cls": "mnemonic.random"}))
+        # size limits of well-formed documents: 65535..65537 storage keys in one entry, 65536 entries, 300 KiB calldata
+        for nk in (65535, 65536, 65537):
+            al = '[["0x%s",[%s]]]' % ("11" * 20, ",".join(['"0x%s"' % ("22" * 32)] * nk))
+            doc = '{"chainId":1,"nonce":0,"maxPriorityFeePerGas":1,"maxFeePerGas":2,"gas":3,"value":0,"data":"0x","accessList":%s}' % al
+            yield lib_case("lib", {"op": "tx.process", "json": doc, "secret": "%064x" % 7}, {"cls": "tx.process"}, "dev" if nk % 2 else "release")
+        al = "[" + ",".join(['["0x%s",[]]' % ("33" * 20)] * 65537) + "]"
+        doc = '{"chainId":1,"nonce":0,"gasPrice":1,"gas":3,"value":0,"data":"0x%s","accessList":%s}' % ("ab" * 300000, al)
+        yield from both(lib_case("lib", {"op": "tx.process", "json": doc, "secret": "%064x" % 7}, {"cls": "tx.process"}))
     elif name.startswith("cli-mut-"):
         for _ in range(shard["count"]):
             acc = cligen.rand_account(rng, simple=True)
